@@ -452,6 +452,77 @@ def rule_tf_sign(ctx):
     ctx.floor(rid + ".pairs", 4)
 
 
+def rule_cicp_hdr(ctx):
+    """every PQ / HLG enum encoding with named primaries has a cicp tag, whatever its white point"""
+    from .. import absint
+    rid = "R-CICP-HDR"
+    ctx.rule(rid, "the profile synthesised for a PQ or HLG encoding carries a sampled curve that the profile parser cannot recognise; it "
+                  "finds the transfer function through the cicp tag, which the synthesiser writes iff EnumColourEncoding::cicp() is "
+                  "Some.  So for the round trip cicp() must be Some([primaries code, transfer code, 0, 1]) (ITU-T H.273 codes 1 / 9 / 11 "
+                  "and 16 / 18) for every encoding with transfer function PQ or HLG and primaries sRGB, BT.2100 or P3 - for each of "
+                  "the four white points and for RGB and grey.  Decision table extracted by evaluating the MIR of cicp() (and the "
+                  "helpers it calls) over the enum values; nothing is run")
+    cr = ctx.prog.crate("jxl_image")
+    fs = [g for g in cr.fn_list if g.path.endswith("color::EnumColourEncoding::cicp")]
+    adt = cr.adts.get("jxl_image::color::EnumColourEncoding")
+    if len(fs) != 1 or adt is None:
+        ctx.anchor_missing(rid, "jxl_image::color::EnumColourEncoding::cicp")
+        return
+    f = fs[0]
+    ctx.seen(f)
+    fields = [(x[0], x[1]) for x in adt["variants"][0]["fields"]]
+
+    def enum(ty, name, nf=None):
+        a = cr.adts.get(ty)
+        for i, v in enumerate(a["variants"] if a else []):
+            if v["name"] == name:
+                return absint.Enum(ty, i, name, [0] * len(v["fields"]))
+        return None
+
+    P = "jxl_image::color::"
+    rows, bad, undec = 0, [], None
+    for cs in ("Rgb", "Grey"):
+        for wp in ("D65", "Custom", "E", "Dci"):
+            for pr, pc in (("Srgb", 1), ("Bt2100", 9), ("P3", 11)):
+                for tf, tc in (("Pq", 16), ("Hlg", 18)):
+                    vals = {"colour_space": enum(P + "ColourSpace", cs), "white_point": enum(P + "WhitePoint", wp),
+                            "primaries": enum(P + "Primaries", pr), "tf": enum(P + "TransferFunction", tf),
+                            "rendering_intent": enum(P + "RenderingIntent", "Relative")}
+                    if any(vals.get(n) is None for n, _ in fields):
+                        ctx.anchor_missing(rid, "the fields / variants of EnumColourEncoding (colour_space, white_point, primaries, tf, rendering_intent)")
+                        return
+                    ev = absint.Evaluator(ctx.prog)
+                    fr = absint.Frame(f)
+                    ev.frames[fr.id] = fr
+                    fr.env[10 ** 6] = absint.Struct([vals[n] for n, _ in fields])
+                    try:
+                        r = ev.call_fn(f, [absint.Ref(("local", fr.id, 10 ** 6))])
+                    except absint.Unsupported as e:
+                        undec = "%s/%s/%s/%s: %s" % (cs, wp, pr, tf, e)
+                        break
+                    rows += 1
+                    got = tuple(r.fields[0]) if isinstance(r, absint.Enum) and r.name == "Some" and isinstance(r.fields[0], (tuple, list)) else None
+                    if got != (pc, tc, 0, 1):
+                        bad.append((cs, wp, pr, tf, got))
+                if undec:
+                    break
+            if undec:
+                break
+        if undec:
+            break
+    ctx.count(rid + ".rows", rows)
+    if undec:
+        ctx.bad(rid, "cicp|not-evaluable", "EnumColourEncoding::cicp is no longer a function the evaluator can decide (%s)" % undec, fn=f)
+        return
+    ctx.floor(rid + ".rows", 48)
+    if not bad:
+        ctx.ok(rid, "cicp|hdr-covered", "48 rows: Some([primaries, transfer, 0, 1]) for every PQ / HLG encoding with named primaries", nontrivial=True, fn=f)
+    else:
+        cs, wp, pr, tf, got = bad[0]
+        ctx.bad(rid, "cicp|hdr-covered", "%s, white point %s, primaries %s, transfer %s: cicp() is %s (%d of 48 rows differ) - the synthesised profile "
+                "of such an image has no cicp tag and is read back as an unknown curve" % (cs, wp, pr, tf, "None" if got is None else list(got), len(bad)), fn=f)
+
+
 def main(pid, tier, repo=None):
     ctx = Ctx(pid, tier, configs=("workspace",), repo=repo)
     specconst.run(ctx, pid, floor=20)
@@ -461,6 +532,7 @@ def main(pid, tier, repo=None):
     rule_xy_unclamped(ctx)
     rule_tf_sign(ctx)
     rule_trc_present(ctx)
+    rule_cicp_hdr(ctx)
     ctx.not_decided("numerical tolerance statements over real-valued functions: that the synthesised profile parses back to an equivalent "
                     "encoding for custom chromaticities and arbitrary gamma, that each transfer function's two directions compose to the "
                     "identity and are monotone, no-op detection of equivalent encodings")
